@@ -1468,6 +1468,13 @@ static void app_run(void)
           app_do_action(&app_act[i]);
         }
       }
+      /* the application acts on the "write pending" notification at the end of its loop iteration, i.e. right
+       * after the calls that queued the data - possibly before a connection those calls opened is established */
+      if (app_pending_write_flag && app_channel != NULL && !sim_destroyed) {
+        app_pending_write_flag = 0;
+        sim_note("pending_write_processed_after_actions");
+        ares_process_pending_write(app_channel);
+      }
     }
     /* network events due */
     if (app_sched.one_event_pm && (int)vh_below(&sim_rng, 1000) < app_sched.one_event_pm) {
